@@ -251,4 +251,7 @@ def run(chk):
     oblig.RELATIONS[:] = []
     oblig.LATE_SUBST.clear()
     symnp.IDEAL.update({"G": None, "syms": ()})
+    from .common import inherits
+    inherits(chk, chk.loader().load("coxeter.shapes"), "ConvexPolygon", "Polygon",
+             ["signed_area", "area", "perimeter", "centroid", "planar_moments_inertia", "polar_moment_inertia", "inertia_tensor"], "coxeter.shapes.polygon")
     run_bounded(chk)
